@@ -47,7 +47,7 @@ func init() {
 		"math.Ceil":    func(fr *frame, a []value) value { return fr.i.roundOp("fp.ceil", math.Ceil, a[0]) },
 		"math.Trunc":   func(fr *frame, a []value) value { return fr.i.roundOp("fp.trunc", math.Trunc, a[0]) },
 		"math.Round":   func(fr *frame, a []value) value { return fr.i.roundOp("fp.round", math.Round, a[0]) },
-		"math.Pow10":   func(fr *frame, a []value) value { return math.Pow10(int(fr.i.concretize(a[0], "math.Pow10 exponent"))) },
+		"math.Pow10":   extMathPow10,
 		"math.Signbit": extMathSignbit,
 		"math.Copysign": func(fr *frame, a []value) value {
 			return math.Copysign(concF(a[0], "math.Copysign"), concF(a[1], "math.Copysign"))
@@ -348,6 +348,10 @@ func (i *interpreter) roundOp(op string, f func(float64) float64, x value) value
 			return s // integral already
 		}
 		panic(unsupported{op + " of a non-integral EXACT-domain value"})
+	}
+	if i.cfg.AbstractConv {
+		i.noteUF(op)
+		return sym{i.st.UF("u"+op, SFP, s.t), types.Float64}
 	}
 	return i.mkSym(i.st.FP1(op, s.t), types.Float64)
 }
